@@ -964,11 +964,13 @@ class SyncObj(object):
                 if not self.__serializer.setTransmissionData(serialized):
                     # Partial snapshot: nothing of the local log was verified against the leader yet
                     return
-                if not self.__loadDumpFile(clearJournal=True):
-                    # Stale snapshot (the leader acted on an outdated reply): everything it covers is committed here
-                    # already. State and log are kept, the stored snapshot is renewed and the leader is told where to go on.
+                matchIdx = self.__loadDumpFile(clearJournal=True)
+                if matchIdx is not None:
+                    # Stale snapshot (the leader acted on an outdated reply): its last entry is in the local log
+                    # already. State and log are kept (entries above it may be committed on the strength of this
+                    # node's acknowledgement), the stored snapshot is renewed and the leader is told where to go on.
                     self.__forceLogCompaction = True
-                    self.__sendNextNodeIdx(node, nextNodeIdx=self.__raftCommitIndex + 1, success=True)
+                    self.__sendNextNodeIdx(node, nextNodeIdx=matchIdx + 1, success=True)
                     return
                 self.__sendNextNodeIdx(node, success=True)
             else:
@@ -1414,8 +1416,14 @@ class SyncObj(object):
     def __loadDumpFile(self, clearJournal):
         try:
             data = self.__serializer.deserialize()
-            if clearJournal and data[1][1] <= self.__raftCommitIndex:
-                return False
+            if clearJournal:
+                # Received from the leader: useless if it ends within the committed prefix or at an entry held here
+                snapshotIdx, snapshotTerm = data[1][1], data[1][2]
+                if snapshotIdx <= self.__raftCommitIndex:
+                    return self.__raftCommitIndex
+                ownEntries = self.__getEntries(snapshotIdx, 1)
+                if ownEntries and ownEntries[0][2] == snapshotTerm:
+                    return snapshotIdx
             if data[0] is not None:
                 if self.__consumers:
                     selfData = data[0][0]
@@ -1445,7 +1453,7 @@ class SyncObj(object):
             self.__onSetCodeVersion(self.__enabledCodeVersion)
         except:
             logger.exception('failed to load full dump')
-        return True
+        return None
 
     def __updateClusterConfiguration(self, newNodes):
         # newNodes: list of Node or node ID
